@@ -257,6 +257,39 @@ def non_paragraph_text(data: bytes):
     return out
 
 
+DRAW_IMAGE = "{urn:oasis:names:tc:opendocument:xmlns:drawing:1.0}image"
+
+
+def _tag_seq(el, out):
+    """Element names in document order; the inside of draw:image is skipped (a flat export
+    replaces it by the payload)."""
+    for ch in el:
+        if not isinstance(ch.tag, str):
+            continue
+        out.append(ch.tag)
+        if ch.tag != DRAW_IMAGE:
+            _tag_seq(ch, out)
+    return out
+
+
+def flat_structure_issues(state, flat_bytes):
+    """The flat XML document must contain, in order, the children of the roots of meta,
+    settings, styles and content with the same element structure. -> [(mechanism, detail)]"""
+    try:
+        flat = etree.fromstring(flat_bytes)
+    except etree.XMLSyntaxError as e:
+        return [("flat-xml:not-well-formed", {"exc": repr(e)})]
+    got = _tag_seq(flat, [])
+    exp = []
+    for name in ("meta.xml", "settings.xml", "styles.xml", "content.xml"):
+        if name in state and state[name].strip():
+            _tag_seq(etree.fromstring(state[name]), exp)
+    if got != exp:
+        k = next((i for i in range(min(len(got), len(exp))) if got[i] != exp[i]), min(len(got), len(exp)))
+        return [("flat-xml:element-structure-differs", {"at": k, "expected": [t.rpartition("}")[2] for t in exp[max(0, k - 2) : k + 3]], "got": [t.rpartition("}")[2] for t in got[max(0, k - 2) : k + 3]], "n_expected": len(exp), "n_got": len(got)})]
+    return []
+
+
 # --------------------------------------------------------------------------- in-memory state
 
 
@@ -424,6 +457,7 @@ def gen_doc_spec(rng, kind=None):
         spec["paras"] = paras
         spec["table"] = rng.random() < 0.4
         spec["image"] = rng.random() < 0.4
+        spec["image_twice"] = spec["image"] and rng.random() < 0.5
     else:
         from . import tablelab as TL
 
@@ -510,6 +544,11 @@ def generate_document(spec):
             p = Paragraph("img")
             p.append(fr)
             body.append(p)
+            if spec.get("image_twice"):  # two frames showing the same picture
+                uri2 = doc.add_file(io.BytesIO(PNG))
+                p2 = Paragraph("again")
+                p2.append(Frame.image_frame(uri2, size=("2cm", "2cm"), anchor_type="as-char", name="img2"))
+                body.append(p2)
         return doc
     from . import tablelab as TL
 
